@@ -912,7 +912,7 @@ LEVEL_TEXT = ("Proved in Lean 4, for ALL byte strings / chunkings / documents, a
               "met after any prefix that leaves the parser outside comments and outside the states STRING/QPROPERTY/ESCAPE, also in the middle of a number or "
               "name, decodes like the text without it; a line comment //...LF|CR decodes like its LF|CR alone; comments_transparent: any number of them, removed in any order (StripsTo); "
               "unclosed_block_comment_rejected: a text ending inside such a comment, e.g. [1]/***/, is invalid; tied by K on texts of exactly that grammar and, on "
-              "the real library alone, by comparing the decode of 1500 commented texts with the decode of the uncommented ones on every run). parse_number_lexeme / scaled_literal_value (fraction and exponent literals: the decimal read is the one the grammar "
+              "the real library alone, by comparing the decode of 1500 commented texts with the decode of the uncommented ones on every run). parse_number_lexeme / scaled_literal_value / frac_exp_literal_decoded (fraction and exponent literals: the decimal read is the one the grammar "
               "denotes; exact double when it is an integer below 2^53 reached with a non-negative net exponent); myatoiz_from_source / myatoiz_no_overflow (the integer conversion of state INT is the function regenerated from "
               "src/String.cpp on every run, and cannot overflow an int on what INT hands to it). The model is tied to the code on every run by the "
               "correspondence check under ASan/UBSan (whole decodes, chunked feeding, prefixes; grammar-generated JSON/XDL, mutations, raw bytes) "
